@@ -63,6 +63,12 @@ def _walk(t):
 
 def run(ctx):
     model = ctx.model
+    shared.import_rule(ctx, "C02", ("R02.order",), "R01.order",
+                       "an added message is stored (and committed) before it is handed to "
+                       "the subscribers (same rule instances as R02.order)",
+                       "a delivery that fails (a subscriber in its closing handshake) aborts "
+                       "the add before the message is stored: it was acknowledged, is never "
+                       "replayed, and a later open does not get it")
     shared.r_wire(ctx, "R01.wire")
     shared.r_collation(ctx, "R01.exact", ('messages', 'mailboxes'),
                        'an open replays (and a close deletes) the messages of another mailbox')
